@@ -157,6 +157,31 @@ class Ctx:
             raise Inconclusive("driver failed rc=%d: %s" % (p.returncode, " ".join(map(str, args))))
         return p
 
+    def drv_crashable(self, args, timeout=600, confirm=1, env_extra=None):
+        """Run the driver where the code under test may bring the whole process down (an unrecovered panic in a
+        library goroutine, a fatal runtime error).  Returns (proc, None) on success or (None, crash) where crash =
+        {"panic": first panic/fatal line, "frame": first fpGo frame, "stderr": tail}; the crash must reproduce in
+        `confirm` further runs, otherwise the run is inconclusive."""
+        def crash_of(p):
+            m = re.search(r"^(panic: .*|fatal error: .*)$", p.stderr, re.M)
+            if p.returncode != 0 and m and "TeaEntityLab/fpGo" in p.stderr:
+                fr = re.search(r"^(github.com/TeaEntityLab/fpGo/v2[^\n]*)$", p.stderr, re.M)
+                return {"panic": m.group(1)[:200], "frame": (fr.group(1) if fr else "")[:200], "stderr": p.stderr[-3000:]}
+            return None
+        p = self.drv(args, timeout=timeout, check=False, env_extra=env_extra)
+        if p.returncode == 0:
+            return p, None
+        c = crash_of(p)
+        if not c:
+            log(p.stdout[-2000:])
+            log(p.stderr[-4000:])
+            raise Inconclusive("driver failed rc=%d: %s" % (p.returncode, " ".join(map(str, args))))
+        for _ in range(confirm):
+            p2 = self.drv(args, timeout=timeout, check=False, env_extra=env_extra)
+            if p2.returncode == 0 or not crash_of(p2):
+                raise Inconclusive("a driver crash (%s) did not reproduce" % c["panic"])
+        return None, c
+
     def stage_specs(self, name="tla"):
         """Flat copy of every .tla/.cfg under spec/ into a scratch dir (TLC litters its cwd)."""
         d = self.sub(name)
